@@ -249,6 +249,12 @@ package netceptor
 //@   site delete map[string]float64 PRUNE: [C01] requires conn != s.nodeID && key == ri.NodeID && !(conn in ri.Connections) && themap == s.knownConnectionCosts[conn]
 //@   site mapupdate Netceptor.knownConnectionCosts REPLACE: [C01] requires key == ri.NodeID && ri.NodeID != s.nodeID && value != nil
 //@   site mapupdate map[string]float64 COPYADJ: [C01] requires themap == s.knownConnectionCosts[ri.NodeID] && key == k && value == v && (k in ri.Connections) && v == ri.Connections[k]
+//@   site mapupdate map[string]float64 POSITIVE: [C01 C07] requires value > 0
+//@   loop range ri.Connections
+//@     invariant CHECKED: [C01 C07] forall p string :: visited(p) ==> ri.Connections[p] > 0
+//@   loop range ri.Connections
+//@     invariant STILLPOSITIVE: [C01 C07] forall p string :: (p in ri.Connections) ==> ri.Connections[p] > 0
+//@   owns ri.Connections
 //@   site call sendRoutingUpdate SUSPECT: [C06] requires ri.NodeID == s.nodeID && ri.UpdateEpoch > s.epoch && arg1 == ri.UpdateEpoch
 //@   site call Shutdown DUPLICATE: [C06 C11] requires ri.NodeID == s.nodeID && ri.SuspectedDuplicate == s.epoch && ri.UpdateEpoch != s.epoch
 
